@@ -176,7 +176,7 @@ def run_check(ctx, args):
             return 0 if res.get("property_holds") else 1
         try:
             out = mod.run(ctx)
-            if escalate and not out.oracle_failures and not out.disagreements and not ctx.search:
+            if escalate and not [f for f in out.oracle_failures if not f.get("finding")] and not out.disagreements and not ctx.search:
                 # the complete quick pass found nothing on the changed code: a second pass with the thorough sizes, other
                 # random choices and a bounded time budget
                 import random as _random
